@@ -11,7 +11,9 @@ removals and calls and follows the content of the directories with a model;
 'environment' gives the temporary directory and the PATH entry unusual names;
 'channels' makes the solver talk on the channels that do not carry the answer (standard
 error; the standard output of a minisat-style program) and varies the byte layout of the
-answer itself (line ends, separators, one write or many).
+answer itself (line ends, separators, one write or many); its 'consume' cases hand formulas
+of 70 KiB .. 3 MiB of DIMACS to programs that take their input in different ways (all of it,
+slowly, only a prefix, nothing; closing it early; writing a large answer first).
 """
 import io
 import os
@@ -305,9 +307,14 @@ def check_observation(o, R, ctx):
     """One call into the bridge (o) against what the documentation promises (R: the
     formula, the verdict and model the solver prints, the expected outcome, the solver
     that has to be chosen)."""
+    check_received(o, R, ctx)
+    check_outcome(o, R, ctx)
+
+
+def check_received(o, R, ctx):
+    """1. what every solver run received"""
     n, clauses = R['n'], R['clauses']
     exp = R['expect']
-    # 1. what every solver run received
     for c in o.calls:
         if c['input'] is None:
             # a fake that needs a file and got none (it refused), or one that could not read it
@@ -324,7 +331,12 @@ def check_observation(o, R, ctx):
         if gn != n or clause_key(gcl) != clause_key(clauses):
             raise Violation("{}(): solver '{}' received p cnf {} {} {} which is not the formula held; {}".format(
                 o.what, c['name'], gn, len(gcl), gcl[:8], ctx))
-    # 2. outcome
+
+
+def check_outcome(o, R, ctx):
+    """2. verdict, model or documented error"""
+    n, clauses = R['n'], R['clauses']
+    exp = R['expect']
     if exp == 'verdict':
         if o.exc is not None:
             raise Violation("{}() raised {}({}) although solver '{}' is installed and answered {}; {}".format(
@@ -1301,6 +1313,8 @@ def channel_labels(case, R):
 
 
 def run_channels(case):
+    if case.get('consume') is not None:
+        return run_consume(case)
     if not (case.get('shape') or {}).get('chan'):
         raise ValueError("a case of 'channels' needs shape['chan']")
     R = execute(case)
